@@ -9,6 +9,7 @@ import (
 	"go/printer"
 	"go/token"
 	"net/http"
+	"path/filepath"
 	"reflect"
 	"regexp"
 	"strings"
@@ -412,8 +413,15 @@ func extractStructFields(pkgPath, typeName string) ([]fieldInfo, error) {
 	return fields, nil
 }
 
-func getPkgDir(importPath string) (string, error) {
-	pkg, err := build.Import(importPath, "", build.FindOnly)
+// getPkgDir resolves importPath as seen from srcDir, the directory of the package being generated
+// (not from the directory the command happens to be started in)
+func getPkgDir(importPath string, srcDir string) (string, error) {
+	if abs, err := filepath.Abs(srcDir); err == nil {
+		srcDir = abs
+	}
+	ctxt := build.Default
+	ctxt.Dir = srcDir //the go command that resolves the path runs there
+	pkg, err := ctxt.Import(importPath, srcDir, build.FindOnly)
 	if err != nil {
 		return "", err
 	}
